@@ -29,6 +29,7 @@ void h_mul(void)
   uint8_t r = crypto__gf_mul(in_a, in_b, &e, &l);
   __CPROVER_assert(r == spec_gf_mul(in_a, in_b), "gf_mul == carry-less product mod 0x11D");
   __CPROVER_assert(crypto__gf_add(in_a, in_b) == (uint8_t)(in_a ^ in_b), "gf_add == xor");
+  __CPROVER_assert((r == 0) == (in_a == 0 || in_b == 0), "gf_mul has no zero divisors (the summary contract of gf_mul used by combine.rejects)");
   CANARY_POINT();
 }
 
@@ -43,6 +44,7 @@ void h_div(void)
   else {
     __CPROVER_assert(__exc == 0, "no exception for a non-zero divisor");
     __CPROVER_assert(spec_gf_mul(q, in_b) == in_a, "gf_div is the inverse of multiplication");
+    __CPROVER_assert((q == 0) == (in_a == 0), "a quotient is zero only for a zero dividend (the summary contract of gf_div used by combine.rejects)");
   }
   CANARY_POINT();
 }
@@ -97,11 +99,25 @@ void h_combine_rejects(void)
 {
   vec_crypto__ShamirShare in_shares; uint8_t in_t; uint64_t in_n;
   __CPROVER_assume(in_n <= T_MAX && in_t >= 1 && in_t <= T_MAX);
+#ifdef T_FIX
+  in_t = T_FIX;   /* case split over the threshold: the copy of the first t shares then has a constant length */
+#endif
   in_shares.p = malloc(sizeof(crypto__ShamirShare) * (T_MAX + 1)); in_shares.n = in_n; in_shares.cap = T_MAX + 1;
   __CPROVER_assume(in_shares.p != 0);
-  /* the 32 byte positions are interpolated independently: positions 1..31 are fixed to zero, position 0 is arbitrary (this
-     keeps both behaviours of the code -- the skipped zero byte and the division -- and a tractable formula) */
+  /* the 32 byte positions are interpolated independently by the same code: positions 1..31 are fixed to zero, position 0 is
+     arbitrary (this keeps both behaviours of the code -- the skipped zero byte and the division -- and a tractable formula) */
   for (int i = 0; i < T_MAX; ++i) for (int b = 1; b < 32; ++b) in_shares.p[i].value._[b] = 0;
+  uint8_t in_i0, in_i1, in_i2, in_i3, in_v0, in_v1, in_v2, in_v3;     /* scalars, so that a counterexample names them */
+  in_shares.p[0].index = in_i0; in_shares.p[0].value._[0] = in_v0;
+#if T_MAX > 1
+  in_shares.p[1].index = in_i1; in_shares.p[1].value._[0] = in_v1;
+#endif
+#if T_MAX > 2
+  in_shares.p[2].index = in_i2; in_shares.p[2].value._[0] = in_v2;
+#endif
+#if T_MAX > 3
+  in_shares.p[3].index = in_i3; in_shares.p[3].value._[0] = in_v3;
+#endif
   _Bool dup = 0;
   for (int i = 0; i < T_MAX; ++i) for (int j = 0; j < i; ++j)
     if (i < in_t && i < (int)in_n && in_shares.p[i].index == in_shares.p[j].index) dup = 1;
